@@ -11,7 +11,7 @@ os.makedirs(CACHE, exist_ok=True)
 def tree_hash():
     """content hash of everything the implementation run depends on"""
     h = hashlib.sha256()
-    files = sorted(glob.glob("/repo/src/**/*.rs", recursive=True)) + ["/repo/Cargo.toml", "/repo/Cargo.lock"]
+    files = sorted(glob.glob(P.REPO + "/src/**/*.rs", recursive=True)) + [P.REPO + "/Cargo.toml", P.REPO + "/Cargo.lock"]
     files += sorted(glob.glob(os.path.join(ROOT, "harness/src/*.rs")))
     files += sorted(glob.glob(os.path.join(ROOT, "coq/Model/*.v")))
     files += [os.path.join(ROOT, "ocaml/driver.ml"), os.path.join(ROOT, "lib/pipeline.py"),
